@@ -322,6 +322,249 @@ def strip_multi(s):
     return s
 
 
+# ------------------------------------------------------------------ the element's history (pre steps)
+
+LEAFLIKE = ("leaf", "joined", "compound")
+STEP_ERRORS = (KeyError, TypeError, IndexError)
+
+
+def schema_at(s, path):
+    """The schema node a path of member names / indexes leads to; None if the path does not fit the schema."""
+    for p in path:
+        if s["t"] == "dict" and isinstance(p, str):
+            s = next((f for f in s["fields"] if f["name"] == p), None)
+            if s is None:
+                return None
+        elif s["t"] in ("list", "array") and isinstance(p, int) and not isinstance(p, bool) and p >= 0:
+            s = s["member"]
+        else:
+            return None
+    return s
+
+
+def step_ok(schema, step):
+    """The step addresses something the schema has (a step on a member that is not there at run time raises
+    KeyError / IndexError; that is modelled; a path through a scalar is not)."""
+    op = step.get("op")
+    if op == "set":
+        return True
+    if op == "set_flat":
+        return True
+    node = schema_at(schema, step.get("path", []))
+    if node is None:
+        return False
+    if op == "child_set":
+        return True
+    if op == "setitem":
+        key = step.get("key")
+        if node["t"] == "dict":
+            return isinstance(key, str)
+        if node["t"] in ("list", "array"):
+            return isinstance(key, int) and not isinstance(key, bool) and key >= 0
+    return False
+
+
+def blank_keys(s3):
+    """Keys of the members `_reset()` leaves (blankMs of Flatland/C03.lean)."""
+    if s3["mode"] == "dense":
+        return [f["name"] for f in s3["fields"]]
+    if s3["mode"] == "sparse":
+        return []
+    return [f["name"] for f in s3["fields"] if not f["opt"]]
+
+
+def shaped_py(s3, e):
+    """`Shaped` of Proofs/C03.lean (= `shapedB` of Flatland/C03.lean), in Python, on an extracted state."""
+    t = s3["t"]
+    if t == "leaf":
+        return "v" in e
+    if t == "dict":
+        if "dict" not in e:
+            return False
+        keys = [k for k, _ in e["dict"]]
+        b = blank_keys(s3)
+        if len(set(keys)) != len(keys) or keys[:len(b)] != b:
+            return False
+        for k, m in e["dict"]:
+            f = next((f for f in s3["fields"] if f["name"] == k), None)
+            if f is None or not shaped_py(f, m):
+                return False
+        return True
+    return "seq" in e and all(shaped_py(s3["member"], m) for m in e["seq"])
+
+
+def apply_step(el, schema, step, entries=None):
+    """One step of the history on the real element (public API only).  Returns what the step shows:
+    {"raise": class} | {"flag": returned flag / None for an assignment} | {"adopted": True} (set_flat: the
+    model takes the state it left as an input).  With `entries`: the (kind, state before, input, flag, state
+    after) of a leaf-like that was set in a state other than a fresh one's is appended (adapt table rows)."""
+    import flatland
+    op = step["op"]
+    if op == "set_flat":
+        el.set_flat([(k, v) for k, v in step["pairs"]])
+        return {"adopted": True}
+    path = step.get("path") or []
+    x = decode_value(step["x"])
+    probe, flags = None, []
+    try:
+        target = el
+        for p in path:
+            target = target[p]
+        node = schema_at(schema, path)
+        if op in ("set", "child_set"):
+            if node is not None and node["t"] in LEAFLIKE:
+                probe, pk, before = target, node["k"], leaf_state(target)
+            flag = bool(target.set(x))
+            out = {"flag": flag}
+            flags.append(flag)
+        else:
+            key = step["key"]
+            member = node["member"] if node is not None and node["t"] in ("list", "array") else (
+                schema_at(node, [key]) if node is not None and isinstance(key, str) else None)
+            present = None
+            if node is not None and node["t"] == "dict" and dict.__contains__(target, key):
+                present = dict.__getitem__(target, key)
+            elif node is not None and node["t"] == "list" and isinstance(key, int) and 0 <= key < len(target):
+                present = target[key]
+            if present is not None and member is not None and member["t"] in LEAFLIKE:
+                probe, pk, before = present, member["k"], leaf_state(present)
+
+                def heard(sender, adapted=None, **kw):
+                    flags.append(bool(adapted))
+                with flatland.element_set.connected_to(heard, sender=present):
+                    target[key] = x
+            else:
+                target[key] = x
+            out = {"flag": None}
+    except STEP_ERRORS as e:
+        return {"raise": type(e).__name__}
+    if entries is not None and probe is not None:
+        xn = encode_py(decode_value(step["x"], gens=False))
+        entries.append([pk, before, xn, flags[-1] if flags else True] + leaf_state(probe))
+    return out
+
+
+def model_step(schema, step, obs, state):
+    """The step as the Lean runner takes it (see `runPre` in Flatland/Run/C03.lean)."""
+    op = step["op"]
+    if op == "set_flat":
+        return {"op": "state", "cur": state}
+    xn = encode_py(decode_value(step["x"], gens=False))
+    resync = state if "raise" in obs else None
+    path = step.get("path") or []
+    if op in ("set", "child_set"):
+        return {"op": "set", "path": path, "x": xn, "resync": resync}
+    node = schema_at(schema, path)
+    return {"op": "setitem", "path": path, "key": step["key"], "fresh": bool(node and node["t"] == "array"),
+            "x": xn, "resync": resync}
+
+
+def nodes_with_paths(rng, s, path=()):
+    """(path, schema node) for every node of the schema, one index per sequence level."""
+    yield list(path), s
+    if s["t"] == "dict":
+        for f in s["fields"]:
+            yield from nodes_with_paths(rng, f, tuple(path) + (f["name"],))
+    elif s["t"] in ("list", "array"):
+        yield from nodes_with_paths(rng, s["member"], tuple(path) + (rng.choice([0, 0, 0, 1, 1, 2]),))
+
+
+UNADAPTABLE = ["abc", "n/a", "zzz", "1e3", "--", "x y"]
+
+
+def flat_keys3(rng, s, prefix=""):
+    """Flattened names ('_' separator) of the leaves of the schema: a few indexes per list level."""
+    name, t = s["name"], s["t"]
+    bare = (prefix + name) if name else prefix[:-1]
+    p2 = (prefix + name + "_") if name else prefix
+    if t in ("leaf", "joined"):
+        yield bare
+    elif t == "compound":
+        if rng.random() < 0.25:
+            yield bare
+        else:
+            for f in s["fields"]:
+                yield p2 + f["name"]
+    elif t == "dict":
+        for f in s["fields"]:
+            yield from flat_keys3(rng, f, p2)
+    elif t == "list":
+        for idx in rng.sample([0, 1, 2, 3, 5], rng.randint(1, 3)):
+            yield from flat_keys3(rng, s["member"], p2 + str(idx) + "_")
+    else:
+        m = s["member"]
+        base = bare
+        if m["name"]:
+            base = (base + "_" + m["name"]) if base else m["name"]
+        for _ in range(rng.randint(1, 3)):
+            yield base
+
+
+def gen_flat_pairs3(rng, schema):
+    keys = list(flat_keys3(rng, schema))
+    if len(keys) > 6 and rng.random() < 0.6:
+        keys = rng.sample(keys, rng.randint(1, 6))
+    pairs = []
+    for k in keys:
+        r = rng.random()
+        v = rng.choice(fl.TEXTS) if r < 0.4 else (rng.choice(UNADAPTABLE) if r < 0.8 else "")
+        pairs.append([k, v])
+    if rng.random() < 0.15:
+        pairs.insert(rng.randint(0, len(pairs)), [rng.choice(["", "zz", "0", "a_", (schema["name"] or "q") + "_9_"]), "x"])
+    return pairs
+
+
+def gen_target_value(rng, node, kinds):
+    """A value for set() on a member: valid for it, hostile, or (leaf-likes) a text that does not adapt."""
+    if node["t"] in LEAFLIKE and rng.random() < 0.4:
+        return {"s": rng.choice(UNADAPTABLE)}
+    return gen_value3(rng, node, kinds, hostile=0.15)
+
+
+def gen_pre(rng, schema, kinds):
+    """1-3 steps of history: set() on the element, set_flat(), a member's own set(), item assignment."""
+    n = rng.choice([1, 1, 2, 2, 3])
+    steps = []
+    has_seq = any(x["t"] in ("list", "array") for x in fl.walk_schema(schema))
+    if has_seq and n > 1 and rng.random() < 0.6:
+        steps.append({"op": "set", "x": gen_value3(rng, schema, kinds, hostile=0.0)})   # something to index into
+    while len(steps) < n:
+        nodes = list(nodes_with_paths(rng, schema))
+        r = rng.random()
+        if r < 0.15:
+            steps.append({"op": "set", "x": gen_value3(rng, schema, kinds, hostile=0.1)})
+        elif r < 0.45:
+            steps.append({"op": "set_flat", "pairs": gen_flat_pairs3(rng, schema)})
+        elif r < 0.75:
+            inner = [(p, nd) for p, nd in nodes if p]
+            if not inner:
+                steps.append({"op": "set", "x": gen_target_value(rng, schema, kinds)})
+                continue
+            p, nd = rng.choice([c for c in inner if c[1]["t"] in LEAFLIKE] or inner) if rng.random() < 0.6 else rng.choice(inner)
+            steps.append({"op": "child_set", "path": p, "x": gen_target_value(rng, nd, kinds)})
+        else:
+            conts = [(p, nd) for p, nd in nodes if nd["t"] in ("dict", "list", "array")]
+            if not conts:
+                steps.append({"op": "set_flat", "pairs": gen_flat_pairs3(rng, schema)})
+                continue
+            p, nd = rng.choice(conts)
+            if nd["t"] == "dict":
+                f = rng.choice(nd["fields"])
+                key = f["name"] if rng.random() < 0.92 else f["name"] + "?"
+                member = f
+            else:
+                key = rng.choice([0, 0, 0, 1, 1, 2, 7])
+                member = nd["member"]
+            steps.append({"op": "setitem", "path": p, "key": key, "x": gen_target_value(rng, member, kinds)})
+    return steps
+
+
+def has_unadapted_leaf(e):
+    if "v" in e:
+        return e["v"] is None and e["u"] != ""
+    return any(has_unadapted_leaf(m[1] if "dict" in e else m) for m in (e.get("dict") or e.get("seq") or []))
+
+
 # ------------------------------------------------------------------ generator
 
 HOSTILE_CONTAINER = [{"none": 1}, {"s": ""}, {"s": "  "}, {"s": "zzz"}, {"i": 7}, [], {"d": []}, {"b": True}, {"junk": 1},
@@ -448,19 +691,29 @@ class C03(Property):
     id = "C03"
     title = "Exported native value re-imports to an equal element"
     proof_module = "Proofs.C03"
-    level_text = ('Lean 4 theorem `reimport`: if set(x) returned True on an element (fresh, or in any state earlier set() calls '
-                  'built) and left it in state e, then set(e.value) on a fresh element of the schema rebuilds the same state e '
-                  '(hence equal .value, .u, ==, flatten()) for Dict/SparseDict under every policy, List/Array and table-driven '
-                  'leaf-likes; the returned flag of the second set() is not claimed. Hypothesis, localised to the leaves that '
-                  'occur in e: a fresh leaf-like of the same kind set with the leaf\'s exported value gets into the leaf\'s '
-                  'state (`leafStable`, a decidable function). It is not proved of the real scalars: the Lean runner and the '
-                  'harness evaluate it per generated case on the adapt table extracted from the real classes (tags '
-                  'thm-applies / thm-hyp-fails in the evidence); where it fails the case rests on the oracle alone. '
-                  '`reimport_true`: if those leaves also report True, so does the container. Negation witness without the '
-                  'hypothesis (KF-C03-a).')
+    level_text = ('Lean 4 theorem `reimport`: if set(x) returned True on an element in any state `cur` that conforms to the schema '
+                  '(`Shaped`: fresh, or with any history) and left it in state e, then set(e.value) on a fresh element of the schema '
+                  'rebuilds the same state e (hence equal .value, .u, ==, flatten()) for Dict/SparseDict under every policy, '
+                  'List/Array and table-driven leaf-likes; the returned flag of the second set() is not claimed. '
+                  '`reimport_history`: the same for an element built fresh and taken through any sequence of set() calls and item '
+                  'assignments anywhere in its tree (`Step`, run by the model: `shaped_history`); `reimport_observed`: from a state '
+                  'observed on the real element (after set_flat(), after a step that raised half-way) that passed the decidable check '
+                  '`shapedB` (`shapedB_iff`), followed by any further such history. The harness gives about 35% of the generated '
+                  'elements a history of 1-3 steps (set, set_flat, a member\'s own set, item assignment; valid, unadaptable and '
+                  'empty inputs) before the set(x) the property talks about; the model recomputes every step it runs, the set(x) '
+                  'and the re-import. Hypothesis, localised to the leaves that occur in e: a fresh leaf-like of the same kind set '
+                  'with the leaf\'s exported value gets into the leaf\'s state (`leafStable`, a decidable function). It is not '
+                  'proved of the real scalars: the Lean runner and the harness evaluate it per generated case on the adapt table '
+                  'extracted from the real classes (tags thm-applies / thm-hyp-fails in the evidence); where it fails the case '
+                  'rests on the oracle alone. `reimport_true`: if those leaves also report True, so does the container. Negation '
+                  'witness without the hypothesis (KF-C03-a).')
     level_note = ("Trusted: Lean kernel + 3 standard axioms; model Flatland/C03.lean (Dict.set incl. to_pairs unpacking of any "
                   "iterable of 2-item iterables, policies, state kept when to_pairs raises, Sequence.set, .value) tied to "
-                  "/repo/src by differential correspondence on every case; what a scalar / JoinedString / DateYYYYMMDD in a "
+                  "/repo/src by differential correspondence on every case, including every step of the element's history that the "
+                  "model runs (member set() and item assignment on Dict / SparseDict / List / Array, with the KeyError / IndexError / "
+                  "TypeError of the lookups); set_flat() is not modelled here (C01's subject): the state it leaves, and the state a "
+                  "set() that raised half-way leaves, are inputs taken from the real element and checked with `shapedB`; "
+                  "what a scalar / JoinedString / DateYYYYMMDD in a "
                   "given state makes of a native is an input table computed from the real classes in isolation, and the "
                   "theorem's leaf hypothesis is a statement about that table (re-adapting the exported NATIVE value; not "
                   "C04/C18's laws, which are about re-setting the text) checked per case, not proved; the oracle states the "
@@ -473,6 +726,13 @@ class C03(Property):
         "Flatland.C03.Proofs.reimport_fresh",
         "Flatland.C03.Proofs.reimport_true",
         "Flatland.C03.Proofs.reimport_value",
+        "Flatland.C03.Proofs.reimport_history",
+        "Flatland.C03.Proofs.reimport_observed",
+        "Flatland.C03.Proofs.shaped_history",
+        "Flatland.C03.Proofs.shaped_applyStep",
+        "Flatland.C03.Proofs.shaped_updateAt",
+        "Flatland.C03.Proofs.shaped_itemAssign",
+        "Flatland.C03.Proofs.shapedB_iff",
         "Flatland.C03.Proofs.shaped_set",
         "Flatland.C03.Proofs.shaped_blank",
         "Flatland.C03.Proofs.rebuilds_of_shaped",
@@ -485,6 +745,8 @@ class C03(Property):
         "computed from the real classes in isolation)",
         "the theorem's hypothesis `leafStable` (the leaves occurring in the first element re-adapt their exported value to their own "
         "state) is evaluated on those tables per case, in Lean and in Python, not proved for all inputs",
+        "the state set_flat() leaves (and a set() that raised half-way) is read from the real element and given to the model, which "
+        "checks `shapedB` on it",
     ]
     assumptions = [
         "MultiValue excluded (the property says so)",
@@ -492,14 +754,22 @@ class C03(Property):
         "2-character texts; wrong arity and non-iterable items), namedtuples, repeated keys, lists / tuples / generators for sequences, "
         "texts, scalar natives, None; other iterables and dict-likes (custom classes with keys()/items()) are not generated",
         "field names of a Dict are texts, distinct (Dict.of enforces it); 'strict' policy not combined with SparseDict",
+        "the element's history before the set() of the property: set() on the element, set_flat() ('_' separator, keys from the "
+        "schema's flattened names), a member's own set() at any path, item assignment with native values on Dict / SparseDict / "
+        "List / Array members at any path (non-negative indexes); not generated: update(), set_default(), set_by_object(), "
+        "del / pop / insert / append / slices (C08-C10's subject), assignment of Element instances, negative indexes",
+        "set_flat() steps and steps that raised are not run by the model: the state of the real element after them is an input of "
+        "the model, checked with `shapedB` (evidence tags cur-shaped / cur-unshaped); the theorems speak about the set(x) that "
+        "follows and the re-import",
         "the leaf hypothesis of `reimport` is measured, not proved: on the generated cases where set() returned True it holds for "
         "about 99% (evidence tags thm-applies / thm-hyp-fails); the cases where it fails are the KF-C03-a inputs (pruning JoinedString "
         "holding an empty member text), where the oracle reports the defect",
     ]
     rule = ("random schemas (as C01, MultiValue replaced by Array, every Dict policy, 'subset' dominant) x inputs in every form the "
             "quantifier names (dict, pair lists with list / tuple / 2-character-text items, namedtuple, generator, partial key sets, "
-            "repeated keys, non-text keys, hostile shapes); non-trivial = set() returned True on a container holding at least 2 leaves; "
-            "distinct = canonical case JSON")
+            "repeated keys, non-text keys, hostile shapes); about 35% of the elements have a history of 1-3 steps before that set() "
+            "(set / set_flat / member set() / item assignment, with valid, unadaptable and empty inputs; then often a PARTIAL set()); "
+            "non-trivial = set() returned True on a container holding at least 2 leaves; distinct = canonical case JSON")
     quick_n = 25000
     thorough_n = 150000
 
@@ -571,8 +841,62 @@ class C03(Property):
             {"schema": D([S("a"), {"t": "joined", "name": "j", "opt": False, "k": 7, "member": S(None, 0)}, comp("d")]), "kinds": kinds,
              "value": [[{"s": "a"}, {"tuple": [sx]}], [{"s": "j"}, {"tuple": [sx, {"s": ""}]}], [{"s": "d"}, {"nt": [["p", sx]]}]]},
         ]
+        # ---- elements with a history before the set() the property talks about
+        ik = [fl.LEAF_KINDS[2], fl.LEAF_KINDS[0], {"type": "DateYMD"}, {"type": "DateMember", "name": "year"},
+              {"type": "DateMember", "name": "month"}, {"type": "DateMember", "name": "day"}]
+        I = lambda name: S(name, 0)
+        point = D([I("x"), I("y")], name="p")
+        A = lambda member, name=None: {"t": "array", "name": name, "opt": False, "prune": False, "multi": False, "member": member}
+        icomp = lambda name: {"t": "compound", "name": name, "opt": False, "k": 2, "fields": [S("year", 3), S("month", 4), S("day", 5)]}
+        history = [
+            # a member holding an unadaptable text (value None, u 'abc'), then a partial set() under 'subset': True, and
+            # `_reset()` must have replaced the stale member (flat input; item assignment; the member's own set())
+            {"schema": point, "kinds": ik, "pre": [{"op": "set_flat", "pairs": [["p_x", "abc"], ["p_y", "3"]]}],
+             "value": {"d": [["y", {"i": 2}]]}},
+            {"schema": point, "kinds": ik, "pre": [{"op": "setitem", "path": [], "key": "x", "x": {"s": "n/a"}}],
+             "value": [{"tuple": [{"s": "y"}, {"i": 7}]}]},
+            {"schema": point, "kinds": ik, "pre": [{"op": "child_set", "path": ["x"], "x": {"s": "1e3"}}],
+             "value": {"d": [["y", {"i": 5}]]}},
+            {"schema": D([S("name", 1), point]), "kinds": ik,
+             "pre": [{"op": "set_flat", "pairs": [["name", "n"], ["p_x", "1e3"], ["p_y", "4"]]}], "value": {"d": [["name", {"s": "m"}]]}},
+            # the same on a SparseDict (the member must be gone), with an empty set(), after an earlier full set()
+            {"schema": D([I("x"), I("y")], name="p", mode="sparse"), "kinds": ik,
+             "pre": [{"op": "setitem", "path": [], "key": "x", "x": {"s": "abc"}}], "value": {"d": [["y", {"i": 2}]]}},
+            {"schema": point, "kinds": ik, "pre": [{"op": "child_set", "path": ["x"], "x": {"s": "abc"}}], "value": {"d": []}},
+            {"schema": point, "kinds": ik, "pre": [{"op": "set", "x": {"d": [["x", {"i": 1}], ["y", {"i": 2}]]}},
+                                                    {"op": "child_set", "path": ["x"], "x": {"s": "abc"}}], "value": {"d": [["y", {"i": 9}]]}},
+            # stale members of a list / an array: set() empties the sequence first
+            {"schema": L(I(None), "l"), "kinds": ik, "pre": [{"op": "set", "x": [{"i": 1}, {"i": 2}]},
+                                                             {"op": "setitem", "path": [], "key": 1, "x": {"s": "abc"}}], "value": [{"i": 5}]},
+            {"schema": A(I(None), "a"), "kinds": ik, "pre": [{"op": "set", "x": [{"i": 1}, {"i": 2}]},
+                                                             {"op": "setitem", "path": [], "key": 0, "x": {"s": "abc"}}], "value": []},
+            {"schema": D([L(point, "l")]), "kinds": ik,
+             "pre": [{"op": "set_flat", "pairs": [["l_0_p_x", "abc"], ["l_2_p_y", "3"]]}, {"op": "child_set", "path": ["l", 1, "x"], "x": {"s": "zzz"}}],
+             "value": {"d": [["l", [{"d": [["y", {"i": 1}]]}]]]}},
+            # steps that raise: a member that is not there, an index out of range, an unknown key, a set() that raises
+            # half-way (the state it leaves is taken from the real element)
+            {"schema": D([I("x"), I("y")], mode="sparse"), "kinds": ik, "pre": [{"op": "child_set", "path": ["x"], "x": {"i": 1}}],
+             "value": {"d": [["y", {"i": 2}]]}},
+            {"schema": L(I(None), "l"), "kinds": ik, "pre": [{"op": "setitem", "path": [], "key": 2, "x": {"i": 1}},
+                                                             {"op": "child_set", "path": [0], "x": {"i": 1}}], "value": [{"i": 5}]},
+            {"schema": A(I(None), "a"), "kinds": ik, "pre": [{"op": "setitem", "path": [], "key": 0, "x": {"i": 1}}], "value": [{"i": 5}]},
+            {"schema": point, "kinds": ik, "pre": [{"op": "setitem", "path": [], "key": "zz", "x": {"i": 1}}], "value": {"d": []}},
+            {"schema": D([point, I("z")]), "kinds": ik,
+             "pre": [{"op": "child_set", "path": ["p", "x"], "x": {"s": "abc"}},
+                     {"op": "set", "x": [[{"s": "z"}, {"i": 1}], [{"s": "p"}, {"d": [["x", {"i": 3}], ["q", {"i": 1}]]}]]}],
+             "value": {"d": [["z", {"i": 2}]]}},
+            # a set() that is no mapping keeps the history (False: outside the property); a leaf-like set in a non-fresh state
+            {"schema": point, "kinds": ik, "pre": [{"op": "child_set", "path": ["x"], "x": {"s": "abc"}}], "value": {"i": 7}},
+            {"schema": D([icomp("d")]), "kinds": ik, "pre": [{"op": "child_set", "path": ["d"], "x": {"date": [2020, 1, 2]}},
+                                                            {"op": "setitem", "path": [], "key": "d", "x": {"none": 1}}], "value": {"d": []}},
+            {"schema": icomp("d"), "kinds": ik, "pre": [{"op": "set", "x": {"date": [2020, 1, 2]}}], "value": {"none": 1}},
+            # item assignment on a SparseDict: a member that is not there is built, one that is there is set
+            {"schema": D([point, I("z")], mode="sparseReq"), "kinds": ik,
+             "pre": [{"op": "setitem", "path": [], "key": "p", "x": {"d": [["x", {"s": "abc"}]]}},
+                     {"op": "setitem", "path": ["p"], "key": "y", "x": {"s": "n/a"}}], "value": {"d": [["z", {"i": 1}]]}},
+        ]
         return [bool_partial, joined, pair_list, two_char, one_text, nt, dup_kept, dup_reset, date_garbage, date_dup, noprune,
-                int_key, list_key] + more
+                int_key, list_key] + more + history
 
     def generate(self, rng, n, tier):
         for _ in range(n):
@@ -584,27 +908,78 @@ class C03(Property):
                     # exercised too, except 'strict' on SparseDicts (a blank sparse member can never
                     # satisfy it, so its own exported value is rejected: outside the quantifier)
                     s["policy"] = rng.choice(["subset"] * 6 + ["duck", "off"] + (["strict"] if s["mode"] == "dense" else []))
-            yield {"schema": schema, "kinds": kinds, "value": gen_value3(rng, schema, kinds, hostile=0.1)}
+            case = {"schema": schema, "kinds": kinds, "value": gen_value3(rng, schema, kinds, hostile=0.1)}
+            if rng.random() < 0.35:
+                # the element has a history before the set() the property talks about
+                case["pre"] = gen_pre(rng, schema, kinds)
+                if rng.random() < 0.5 and schema["t"] == "dict":
+                    # a partial final set(): members the history touched are not named again
+                    case["value"] = gen_value3(rng, dict(schema, fields=[f for f in schema["fields"] if rng.random() < 0.5]),
+                                               kinds, hostile=0.05)
+            yield case
 
-    def _first(self, case):
-        cls = fl.build_class(case["schema"], case["kinds"])
+    def _history(self, case, record=False):
+        """A fresh element taken through the case's pre steps (its history).  With record: what every step
+        showed, the state after every step, adapt-table rows of leaf-likes set in a non-fresh state."""
+        schema = case["schema"]
+        cls = fl.build_class(schema, case["kinds"])
         el = cls()
+        shown, states, entries = [], [], []
+        for step in case.get("pre") or []:
+            out = apply_step(el, schema, step, entries if record else None)
+            if record:
+                state = extract3(el, schema)
+                if "flag" in out:
+                    out["elem"] = state
+                elif "adopted" in out:
+                    out["shaped"] = shaped_py(to_c03_schema(schema), state)
+                shown.append(out)
+                states.append(state)
+        return cls, el, shown, states, entries
+
+    def _first(self, case, record=False):
+        """The element after its history, then the set(x) the property talks about."""
+        schema = case["schema"]
+        cls, el, shown, states, entries = self._history(case, record)
         x = decode_value(case["value"])
+        info = {"pre": shown, "states": states, "entries": entries}
+        if record:
+            info["cur"] = extract3(el, schema)
+            if schema["t"] in LEAFLIKE:
+                before = leaf_state(el)
         try:
             flag = el.set(x)
         except (KeyError, TypeError) as e:
-            return cls, None, type(e).__name__, x
-        return cls, el, bool(flag), x
+            return cls, None, type(e).__name__, info
+        if record and schema["t"] in LEAFLIKE:
+            entries.append([schema["k"], before, encode_py(decode_value(case["value"], gens=False)), bool(flag)] + leaf_state(el))
+        return cls, el, bool(flag), info
 
     def run_impl(self, case):
         schema = case["schema"]
-        cls, el, flag, x = self._first(case)
+        cls, el, flag, info = self._first(case, record=True)
         xn = encode_py(decode_value(case["value"], gens=False))
         natives = subnatives(xn, [None])
         chains = dup_chains(xn)
+        for step in case.get("pre") or []:
+            if "x" in step:
+                sn = encode_py(decode_value(step["x"], gens=False))
+                subnatives(sn, natives)
+                chains.extend(c for c in dup_chains(sn) if c not in chains)
+        s3 = to_c03_schema(schema)
+        pre_model = [model_step(schema, st, out, state) for st, out, state in zip(case.get("pre") or [], info["pre"], info["states"])]
+        common = {"pre": info["pre"], "cur_shaped": shaped_py(s3, info["cur"]), "_x": xn, "_pre": pre_model, "_cur": info["cur"]}
+
+        def env_of(natives):
+            env = make_env3(schema, case["kinds"], natives, chains)
+            bstates = {b[0]: b[1:] for b in env["blank"]}
+            for e in info["entries"]:
+                k, before, n = e[0], e[1], e[2]
+                if before != bstates.get(k) and not any(r[0] == k and r[1] == before and r[2] == n for r in env["adapt2"]):
+                    env["adapt2"].append(e)
+            return env
         if el is None:
-            return {"first": {"raise": flag}, "again": None, "hyp_holds": None, "hyp_true": None, "_x": xn,
-                    "_env": make_env3(schema, case["kinds"], natives, chains)}
+            return dict(common, first={"raise": flag}, again=None, hyp_holds=None, hyp_true=None, _env=env_of(natives))
         first = {"flag": flag, "elem": extract3(el, schema), "value": encode_py(el.value)}
         el2 = cls()
         try:
@@ -613,18 +988,26 @@ class C03(Property):
         except (KeyError, TypeError) as e:
             again = {"raise": type(e).__name__}
         natives = subnatives(first["value"], natives)
-        env = make_env3(schema, case["kinds"], natives, chains)
-        s3 = to_c03_schema(schema)
-        return {"first": first, "again": again, "hyp_holds": hyp_holds(s3, first["elem"], env, False),
-                "hyp_true": hyp_holds(s3, first["elem"], env, True), "_x": xn, "_env": env}
+        env = env_of(natives)
+        if case.get("pre"):
+            # does the history show in what set(x) built?  (the same set(x) on a fresh element, for the tags)
+            fresh = cls()
+            try:
+                fresh.set(decode_value(case["value"]))
+                common["_history_shows"] = extract3(fresh, schema) != first["elem"]
+            except (KeyError, TypeError):
+                common["_history_shows"] = True
+        return dict(common, first=first, again=again, hyp_holds=hyp_holds(s3, first["elem"], env, False),
+                    hyp_true=hyp_holds(s3, first["elem"], env, True), _env=env)
 
     def model_input(self, case, obs):
-        return {"schema": to_c03_schema(case["schema"]), "x": (obs or {}).get("_x"),
-                "env": (obs or {}).get("_env") or {"adapt": [], "adapt2": [], "blank": []}}
+        obs = obs or {}
+        return {"schema": to_c03_schema(case["schema"]), "x": obs.get("_x"), "pre": obs.get("_pre") or [],
+                "env": obs.get("_env") or {"adapt": [], "adapt2": [], "blank": []}}
 
     def oracle(self, case):
         schema = case["schema"]
-        cls, el, flag, x = self._first(case)
+        cls, el, flag, _ = self._first(case)
         if el is None or flag is not True:
             return []
         fails = []
@@ -651,7 +1034,7 @@ class C03(Property):
         joined value.  Any other difference (or an exception) is not that finding."""
         if failure.get("clause") not in ("value-equal", "u-equal", "eq", "flatten-equal"):
             return None
-        cls, el, flag, x = self._first(case)
+        cls, el, flag, _ = self._first(case)
         if el is None:
             return None
         el2 = cls()
@@ -706,7 +1089,7 @@ class C03(Property):
         if f.get("flag") is True:
             # does the Lean theorem speak about this case?  (its premise: set() returned True; its hypothesis:
             # leafStable, evaluated on the real adapt table)
-            t.append("thm-applies" if obs.get("hyp_holds") else "thm-hyp-fails")
+            t.append("thm-applies" if obs.get("hyp_holds") and obs.get("cur_shaped") else "thm-hyp-fails")
             t.append("thm-true-applies" if obs.get("hyp_true") else "thm-true-hyp-fails")
             if self.nontrivial(case, obs):
                 t.append("nontrivial-thm-applies" if obs.get("hyp_holds") else "nontrivial-thm-hyp-fails")
@@ -719,9 +1102,79 @@ class C03(Property):
             t.append("repeated-key")
         if (obs.get("_env") or {}).get("adapt2"):
             t.append("leaf-set-twice")
+        pre = case.get("pre") or []
+        t.append("pre=%d" % len(pre))
+        if pre:
+            for step, out in zip(pre, obs.get("pre") or []):
+                t.append("pre-op-" + step["op"])
+                if "raise" in out:
+                    t.append("pre-raise-" + out["raise"])
+                    t.append("pre-%s-raise" % step["op"])
+            cur = obs.get("_cur") or {}
+            blank_cur = (obs.get("_pre") is not None and cur == self._blank_state(case))
+            t.append("cur-blank" if blank_cur else "cur-nonblank")
+            if has_unadapted_leaf(cur):
+                t.append("cur-has-unadapted-leaf")
+            t.append("cur-shaped" if obs.get("cur_shaped") else "cur-unshaped")
+            if f.get("flag") is True:
+                t.append("pre+first=True")
+                if not blank_cur:
+                    t.append("nonblank-cur+first=True")
+                if has_unadapted_leaf(cur):
+                    t.append("unadapted-leaf-in-cur+first=True")
+                if obs.get("_history_shows"):
+                    t.append("history-shows+first=True")
         return list(dict.fromkeys(t))
 
+    def _blank_state(self, case):
+        return extract3(fl.build_class(case["schema"], case["kinds"])(), case["schema"])
+
     def shrink_candidates(self, case):
+        for c in self._shrink_candidates(case):
+            # steps that no longer address anything in a shrunk schema are dropped with it
+            if c.get("pre"):
+                c["pre"] = [st for st in c["pre"] if step_ok(c["schema"], st)]
+            if "pre" in c and not c["pre"]:
+                del c["pre"]
+            yield c
+
+    def _shrink_candidates(self, case):
+        pre = case.get("pre") or []
+        if pre:
+            c = copy.deepcopy(case)
+            del c["pre"]
+            yield c
+        for i in range(len(pre)):
+            c = copy.deepcopy(case)
+            c["pre"] = pre[:i] + pre[i + 1:]
+            yield c
+        for i, st in enumerate(pre):
+            if st["op"] == "set_flat":
+                for j in range(len(st["pairs"])):
+                    c = copy.deepcopy(case)
+                    c["pre"][i]["pairs"] = st["pairs"][:j] + st["pairs"][j + 1:]
+                    yield c
+                for j, (k, v) in enumerate(st["pairs"]):
+                    if len(v) > 3:
+                        c = copy.deepcopy(case)
+                        c["pre"][i]["pairs"][j][1] = v[:3]
+                        yield c
+            else:
+                pv = plain_value(st["x"])
+                if pv != st["x"]:
+                    c = copy.deepcopy(case)
+                    c["pre"][i]["x"] = pv
+                    yield c
+                if isinstance(st["x"], dict) and "d" in st["x"]:
+                    for j in range(len(st["x"]["d"])):
+                        c = copy.deepcopy(case)
+                        c["pre"][i]["x"] = {"d": st["x"]["d"][:j] + st["x"]["d"][j + 1:]}
+                        yield c
+                elif isinstance(st["x"], list):
+                    for j in range(len(st["x"])):
+                        c = copy.deepcopy(case)
+                        c["pre"][i]["x"] = st["x"][:j] + st["x"][j + 1:]
+                        yield c
         pv = plain_value(case["value"])
         if pv != case["value"]:
             c = copy.deepcopy(case)
